@@ -20,7 +20,9 @@ EXTENDS Integers, Sequences, SequencesExt, FiniteSets, FiniteSetsExt, TLC, TLCEx
 CONSTANTS N,          \* particles
           PipeName,   \* which pipeline of Pipes
           ObsName,    \* which observation sequence of ObsSeqs (one observation is consumed by every init / extend move)
-          Prev0       \* state before the first step
+          Prev0,      \* state before the first step
+          WithU       \* the step model has a second latent u ~ U (independent, dyadic) that NO custom proposal proposes:
+                      \* it is always filled in by the model's own proposal, so it must cancel in every weight
 
 Pipes == [ie    |-> <<"init", "extend">>,
           irce  |-> <<"init", "resample_cat", "extend">>,
@@ -40,8 +42,11 @@ V == 0..(K - 1)
 NLT(prev, z) == IF z = prev THEN 1 ELSE 2
 NLE(z, x) == IF x = (z + 1) % K THEN 1 ELSE 2
 NLQ(x, z) == IF z = (x + 2) % K THEN 1 ELSE 2
+NLU(u) == IF u = 0 THEN 1 ELSE 2
+UVals == IF WithU THEN V ELSE {0}
 Pow2(n) == 2 ^ n
 Sum(f, S) == FoldSet(LAMBDA x, acc : acc + f[x], 0, S)
+UMass(us) == IF WithU THEN Sum([i \in 1..N |-> NLU(us[i])], 1..N) ELSE 0
 
 (* rationals <<num, den>> *)
 RECURSIVE GCD(_, _)
@@ -70,27 +75,27 @@ Zhat == RMul(zacc, MeanW(pc))
 (* ---- init: every particle draws z from the prior transition (default) or from the custom proposal ---- *)
 DoInit(prop) ==
   /\ pc = <<>> /\ Move = (IF prop THEN "init_prop" ELSE "init")
-  /\ \E zs \in [1..N -> V] :
+  /\ \E zs \in [1..N -> V] : \E us \in [1..N -> UVals] :
        LET x == Obs[tobs]
-           parts == [i \in 1..N |-> [z |-> zs[i], prev |-> Prev0,
+           parts == [i \in 1..N |-> [z |-> zs[i], u |-> us[i], prev |-> Prev0,
                                      lw |-> IF prop THEN 0 - (NLT(Prev0, zs[i]) + NLE(zs[i], x) - NLQ(x, zs[i])) ELSE 0 - NLE(zs[i], x)]]
-           m == Sum([i \in 1..N |-> IF prop THEN NLQ(x, zs[i]) ELSE NLT(Prev0, zs[i])], 1..N)
+           m == Sum([i \in 1..N |-> IF prop THEN NLQ(x, zs[i]) ELSE NLT(Prev0, zs[i])], 1..N) + UMass(us)
        IN /\ pc' = parts
           /\ mass' = RMul(mass, <<1, Pow2(m)>>)
-          /\ hist' = Append(hist, [move |-> Move, zs |-> zs, obs |-> x, lw |-> [i \in 1..N |-> parts[i].lw]])
+          /\ hist' = Append(hist, [move |-> Move, zs |-> zs, us |-> us, obs |-> x, lw |-> [i \in 1..N |-> parts[i].lw]])
   /\ t' = t + 1 /\ tobs' = tobs + 1 /\ UNCHANGED zacc
 
 (* ---- extend: new step from every particle's retval (its z), weight accumulates ---- *)
 DoExtend(prop) ==
   /\ pc # <<>> /\ Move = (IF prop THEN "extend_prop" ELSE "extend")
-  /\ \E zs \in [1..N -> V] :
+  /\ \E zs \in [1..N -> V] : \E us \in [1..N -> UVals] :
        LET x == Obs[tobs]
-           parts == [i \in 1..N |-> [z |-> zs[i], prev |-> pc[i].z,
+           parts == [i \in 1..N |-> [z |-> zs[i], u |-> us[i], prev |-> pc[i].z,
                                      lw |-> pc[i].lw + (IF prop THEN 0 - (NLT(pc[i].z, zs[i]) + NLE(zs[i], x) - NLQ(x, zs[i])) ELSE 0 - NLE(zs[i], x))]]
-           m == Sum([i \in 1..N |-> IF prop THEN NLQ(x, zs[i]) ELSE NLT(pc[i].z, zs[i])], 1..N)
+           m == Sum([i \in 1..N |-> IF prop THEN NLQ(x, zs[i]) ELSE NLT(pc[i].z, zs[i])], 1..N) + UMass(us)
        IN /\ pc' = parts
           /\ mass' = RMul(mass, <<1, Pow2(m)>>)
-          /\ hist' = Append(hist, [move |-> Move, zs |-> zs, obs |-> x, lw |-> [i \in 1..N |-> parts[i].lw]])
+          /\ hist' = Append(hist, [move |-> Move, zs |-> zs, us |-> us, obs |-> x, lw |-> [i \in 1..N |-> parts[i].lw]])
   /\ t' = t + 1 /\ tobs' = tobs + 1 /\ UNCHANGED zacc
 
 (* ---- resample ---- *)
